@@ -511,6 +511,10 @@ def run(ctx):
     ctx.attempt(r58, ctx)
     ctx.rule("R-5.10", "the acquire primitive does not evaluate the P matrix (the idle block may be empty right after the last acquire)", floor=1)
     ctx.attempt(r510, ctx)
+    ctx.rule("R-5.16", "the restart file written after a step loads: it is complete when it takes the final name (dump, close, then the replace; shared with C08 R-8.2)", floor=1)
+    from . import c08 as _c08o
+    from .shared import RuleProxy as _RP5o
+    ctx.attempt(_c08o.r82, _RP5o(ctx, "R-5.16", " (a process that dies between the rename and the close leaves an empty or cut restart.toml and no older copy: the sampler cannot be continued from that step)"))
     ctx.rule("R-5.15", "a job is only drawn for an ensemble in which its path has weight: the rows of the P matrix are put back at the positions of their paths (scatter through the index array that sorted, shared with C02 R-2.4 / R-2.5)", floor=5)
     from . import c02 as _c02e
     from .shared import RuleProxy as _RP5d
@@ -536,6 +540,7 @@ def run(ctx):
 
 
 VARIANTS = [
+    B("c05-restart-file-renamed-before-it-is-closed", REPEX, '        os.replace("./restart.toml.tmp", "./restart.toml")\n', '            os.replace("./restart.toml.tmp", "./restart.toml")\n', "R-5.16", control=True, why="seeded C05_o"),
     B("c05-rows-gathered-with-the-sorting-permutation", REPEX, "        out[sort_idx] = out.copy()  # COPY REQUIRED TO NOT BRAKE STATE!!!", "        out = out[sort_idx]  # undo the row sorting", "R-5.15", control=True, why="seeded C05_n"),
     B("c05-engines-released-per-requested-type-only", "infretis/classes/engines/factory.py", "    for eng_key in engine_occ.keys():\n        for i, occupied_by in enumerate(engine_occ[eng_key]):\n            if pin == occupied_by:", "    for eng_key in eng_names:\n        for i, occupied_by in enumerate(engine_occ[eng_key]):\n            if pin == occupied_by:", "R-5.14", control=True, why="seeded C05_m"),
     B("c05-minus-interface-by-truthiness", TIS_REL, "        if lambda_minus_one is not False:", "        if lambda_minus_one:", "R-5.13", control=True, why="seeded C05_l (lambda_minus_one = 0.0 is a legal interface)"),
